@@ -31,7 +31,7 @@ static void one(int w, uint64_t bits) {
   vh_kbytes("b", in + 1, w);
   /* streaming decoder */
   vh_ev_clear();
-  struct cbor_decoder_result d = cbor_stream_decode(ex, 1 + w, &vh_recording_callbacks, NULL);
+  struct cbor_decoder_result d = cbor_stream_decode(ex, 1 + w, &vh_recording_callbacks, VH_CTX);
   vh_kint("read", (long long)d.read);
   vh_kstr("slot", vh_ev.slot);
   vh_kbytes("dec", vh_ev.arg, vh_ev.arglen);
@@ -92,7 +92,7 @@ static int sweep(unsigned lo, unsigned hi) {
   for (uint64_t u = (uint64_t)lo << 24; u <= (((uint64_t)hi << 24) | 0xffffff); u++) {
     in[1] = (unsigned char)(u >> 24); in[2] = (unsigned char)(u >> 16); in[3] = (unsigned char)(u >> 8); in[4] = (unsigned char)u;
     vh_ev_clear();
-    struct cbor_decoder_result d = cbor_stream_decode(in, 5, &vh_recording_callbacks, NULL);
+    struct cbor_decoder_result d = cbor_stream_decode(in, 5, &vh_recording_callbacks, VH_CTX);
     int nan = ((u >> 23) & 0xff) == 0xff && (u & 0x7fffff);
     uint32_t got = (uint32_t)vh_ev.arg[0] << 24 | vh_ev.arg[1] << 16 | vh_ev.arg[2] << 8 | vh_ev.arg[3];
     float f;
